@@ -138,7 +138,7 @@ call_st = st.one_of(
     st.fixed_dictionaries({"f": st.just("hist1d"), "layers": st.lists(st.sampled_from(["H1", "H3", "AX"]), min_size=1, max_size=2),
                            "bins": st.sampled_from([None, 5, "BINS"]), "weights": st.sampled_from([None, "W"])}),
     st.fixed_dictionaries({"f": st.just("scatter"), "color": st.sampled_from([None, "AY", "red"]),
-                           "size": st.sampled_from([None, 3.0, "AS"])}),
+                           "size": st.sampled_from([None, 3.0, "AS", "ASN"])}),
     st.fixed_dictionaries({"f": st.just("plot"), "two": st.booleans(), "kw": st.sampled_from([None, "--"]),
                            "form": st.sampled_from(["arrays", "arrays", "dict"])}),
 )
@@ -182,6 +182,9 @@ def _world(case):
         "AY": osyris.Array(values=np.linspace(2.0, 30.0, n) ** 1.5, unit="g", name="ay"),
         "AS": osyris.Array(values=np.linspace(0.1, 0.2, n), unit="cm", name="as"),
         "W": osyris.Array(values=np.linspace(1.0, 2.0, n), unit="g", name="w"),
+        # sizes with entries that cannot be drawn (NaN, inf), in the unit of the positions
+        "ASN": osyris.Array(values=np.where(np.arange(n) % 5 == 1, np.nan, np.where(np.arange(n) % 7 == 3, np.inf,
+                                                                                     np.linspace(0.1, 0.2, n))), unit="cm", name="asn"),
         "BINS": np.linspace(0.0, 10.0, 7),
         "LIM": {"xmin": 0.5, "xmax": 9.5, "ymin": 1.0, "ymax": 200.0},
     }
@@ -252,7 +255,7 @@ def _do_call(c, w):
         if c["color"]:
             kw["color"] = w["AY"] if c["color"] == "AY" else c["color"]
         if c["size"]:
-            kw["size"] = w["AS"] if c["size"] == "AS" else c["size"]
+            kw["size"] = w[c["size"]] if c["size"] in ("AS", "ASN") else c["size"]
         return osyris.scatter(w["AX"], w["AX"] * 2.0 if False else w["AS"], **kw)
     if c.get("form") == "dict":
         return osyris.plot(w["PD"], **({"ls": c["kw"]} if c["kw"] else {}))
